@@ -614,6 +614,18 @@ func (p *parentStreamReader[T]) peek(idx int) (t T, err error) {
 	// 2. Initialize the 'next' field of this cpStreamElement with an empty cpStreamElement,
 	//    similar to the initialization in copyStreamReaders.
 	elem.once.Do(func() {
+		defer func() {
+			if panicErr := recover(); panicErr != nil {
+				// Reading the source panicked (a convert function of the user). Without an element
+				// the other children would find a zero chunk here and ErrRecvAfterClosed for ever:
+				// every child, the one that got here first included, finds the panic as an error
+				// item, followed by the end of the stream.
+				end := &cpStreamElement[T]{item: streamItem[T]{err: io.EOF}}
+				end.once.Do(func() {})
+				elem.item = streamItem[T]{err: safe.NewPanicErr(panicErr, debug.Stack())} // nolint: byted_returned_err_should_do_check
+				elem.next = end
+			}
+		}()
 		t, err = p.sr.Recv()
 		verifC19ChildRecv(p, err)
 		elem.item = streamItem[T]{chunk: t, err: err}
